@@ -138,21 +138,30 @@ fn run_c20(line: &str) -> String {
         if tag != "c20" {
             return None;
         }
-        let slot: &'static AmbientSlot = Box::leak(Box::new(AmbientSlot::new()));
-        let log: Log = Arc::new(Mutex::new(Vec::new()));
+        // two independent slots: steps `(T OP)` address slot 0, steps `(T s1 OP)` slot 1 (a thread that lost an
+        // initialisation of one slot must still be able to win the other)
+        let slots: [&'static AmbientSlot; 2] =
+            [Box::leak(Box::new(AmbientSlot::new())), Box::leak(Box::new(AmbientSlot::new()))];
+        let logs: [Log; 2] = [Arc::new(Mutex::new(Vec::new())), Arc::new(Mutex::new(Vec::new()))];
+        let mut uses_s1 = false;
         // parse first
         let mut plan = Vec::new();
         let mut probe = -1i64;
         for st in steps {
             let l = st.as_list()?;
-            if l.len() != 2 {
-                return None;
-            }
+            let which = match l.len() {
+                2 => 0usize,
+                3 if l[1].as_atom() == Some("s1") => {
+                    uses_s1 = true;
+                    1
+                }
+                _ => return None,
+            };
             let t = l[0].as_usize()?;
             if t > 3 {
                 return None;
             }
-            let cmd = match &l[1] {
+            let cmd = match &l[l.len() - 1] {
                 Sexp::Atom(a) => match a.as_str() {
                     "obs" => {
                         probe -= 1;
@@ -171,24 +180,25 @@ fn run_c20(line: &str) -> String {
                     }
                 }
             };
-            plan.push((t, cmd));
+            plan.push((t, which, cmd));
         }
         // actor threads: each runs the commands addressed to it, one at a time, in schedule order
         let mut chans = Vec::new();
         let mut handles = Vec::new();
         for _ in 0..4 {
-            let (tx, rx) = mpsc::channel::<(Cmd, mpsc::Sender<String>)>();
-            let log = log.clone();
+            let (tx, rx) = mpsc::channel::<(usize, Cmd, mpsc::Sender<String>)>();
+            let logs = logs.clone();
             handles.push(std::thread::spawn(move || {
-                for (cmd, reply) in rx {
+                for (which, cmd, reply) in rx {
+                    let (slot, log) = (slots[which], &logs[which]);
                     let out = match cmd {
-                        Cmd::Init(i) => match try_init(slot, i, &log) {
+                        Cmd::Init(i) => match try_init(slot, i, log) {
                             Some(true) => "init=true".to_string(),
                             Some(false) => "init=true\tFAIL:winner-handle-shows-other-components".to_string(),
                             None => "init=false".to_string(),
                         },
                         Cmd::Obs(p) => {
-                            let o = observe(slot, &log, p);
+                            let o = observe(slot, log, p);
                             if o.iter().all(|x| x.is_none()) {
                                 "comp=empty".to_string()
                             } else {
@@ -196,7 +206,7 @@ fn run_c20(line: &str) -> String {
                                 format!("comp=({},{},{},{},{})", f(o[0]), f(o[1]), f(o[2]), f(o[3]), f(o[4]))
                             }
                         }
-                        Cmd::Emit(e) => match emit_via(slot, &log, e) {
+                        Cmd::Emit(e) => match emit_via(slot, log, e) {
                             Some(c) => format!("to={}", c),
                             None => "to=none".into(),
                         },
@@ -216,20 +226,26 @@ fn run_c20(line: &str) -> String {
             chans.push(tx);
         }
         let mut outs = Vec::new();
-        for (t, cmd) in plan {
+        for (t, which, cmd) in plan {
             let (rtx, rrx) = mpsc::channel();
-            chans[t].send((cmd, rtx)).ok()?;
+            chans[t].send((which, cmd, rtx)).ok()?;
             outs.push(rrx.recv_timeout(Duration::from_secs(20)).unwrap_or_else(|_| "hang".into()));
         }
         for c in &chans {
             let (rtx, _r) = mpsc::channel();
-            let _ = c.send((Cmd::Stop, rtx));
+            let _ = c.send((0, Cmd::Stop, rtx));
         }
         for h in handles {
             let _ = h.join();
         }
-        let recv: Vec<String> = log.lock().unwrap().iter().filter(|(_, id)| *id >= 0).map(|(c, e)| format!("({} {})", c, e)).collect();
-        Some(format!("{} recv=({})", outs.join(" "), recv.join(" ")))
+        let recv = |k: usize| -> String {
+            logs[k].lock().unwrap().iter().filter(|(_, id)| *id >= 0).map(|(c, e)| format!("({} {})", c, e)).collect::<Vec<_>>().join(" ")
+        };
+        let mut out = format!("{} recv=({})", outs.join(" "), recv(0));
+        if uses_s1 {
+            out.push_str(&format!(" recv1=({})", recv(1)));
+        }
+        Some(out)
     })()
     .unwrap_or_else(|| "bad-case".into())
 }
@@ -326,6 +342,7 @@ fn gen_c20(rng: &mut Rng, tier: Tier, n: usize) -> Vec<String> {
     (0..n)
         .map(|_| {
             let len = rng.usize(max + 1);
+            let two_slots = rng.chance(1, 3);
             let first_init = rng.usize(len + 1); // a stretch of pre-initialisation steps first
             let mut next_e = 0u64;
             let steps = (0..len)
@@ -341,7 +358,11 @@ fn gen_c20(rng: &mut Rng, tier: Tier, n: usize) -> Vec<String> {
                         3 => Sexp::atom("enabled"),
                         _ => Sexp::tagged("init", vec![Sexp::num(1 + rng.below(5))]),
                     };
-                    Sexp::list(vec![t, op])
+                    if two_slots && rng.bool() {
+                        Sexp::list(vec![t, Sexp::atom("s1"), op])
+                    } else {
+                        Sexp::list(vec![t, op])
+                    }
                 })
                 .collect();
             Sexp::tagged("c20", steps).to_string()
